@@ -644,6 +644,79 @@ def key_for_alg(alg, enc, j):
     return ("oct", int(alg[1:4]))
 
 
+# --------------------------------------------------------------------------
+# every function of the key modules that can create key material (the draw-discipline table)
+# --------------------------------------------------------------------------
+GENERATOR_TABLE = {
+    "joserfc.rfc7518.oct_key:OctKey.generate_key": "class entry point (model gen_oct)",
+    "joserfc.rfc7518.rsa_key:RSAKey.generate_key": "class entry point (model gen_rsa)",
+    "joserfc.rfc7518.ec_key:ECKey.generate_key": "class entry point (model gen_ec)",
+    "joserfc.rfc7518.ec_key:ECBinding.generate_private_key": "backend call under ECKey.generate_key (intercepted)",
+    "joserfc.rfc8037.okp_key:OKPKey.generate_key": "class entry point (model gen_okp)",
+    "joserfc._keys:JWKRegistry.generate_key": "dispatch on the key type (model gen_one)",
+    "joserfc._keys:KeySet.generate_key_set": "count successive generate_key calls (model gen_key_set)",
+    "joserfc.rfc7517.models:BaseKey.generate_key": "abstract declaration (raises NotImplementedError)",
+}
+GENERATOR_MODULES = ["joserfc.jwk", "joserfc._keys", "joserfc.rfc7517.models", "joserfc.rfc7517.pem", "joserfc.rfc7517.types",
+                     "joserfc.rfc7518.oct_key", "joserfc.rfc7518.rsa_key", "joserfc.rfc7518.ec_key", "joserfc.rfc7518.derive_key",
+                     "joserfc.rfc8037.okp_key", "joserfc.rfc8812", "joserfc.rfc7638"]
+GENERATOR_PAT = r"generate_key\(|generate_key_set\(|token_bytes\(|token_hex\(|token_urlsafe\(|generate_private_key\(|\.generate\(\)|urandom\(|randbytes\(|getrandbits\(|SystemRandom"
+
+
+def scan_generators():
+    """qualified names of the functions / methods of the key modules whose name says generate or whose
+    source calls a generator; plus everything reachable as <exported class>.<name with 'generate'>"""
+    import importlib, inspect, re, types
+    pat = re.compile(GENERATOR_PAT)
+    found = {}
+    for mn in GENERATOR_MODULES:
+        try:
+            mod = importlib.import_module(mn)
+        except Exception:
+            continue
+        for n, v in list(vars(mod).items()):
+            objs = []
+            if isinstance(v, types.FunctionType) and v.__module__ == mn:
+                objs.append((n, v))
+            elif isinstance(v, type) and v.__module__ == mn:
+                for an, av in list(vars(v).items()):
+                    f = getattr(av, "__func__", av)
+                    f = getattr(f, "fget", f) or f
+                    if isinstance(f, types.FunctionType):
+                        objs.append((n + "." + an, f))
+            for qn, f in objs:
+                try:
+                    src = inspect.getsource(f)
+                except Exception:
+                    src = ""
+                if "generate" in f.__name__ or pat.search(src):
+                    found["%s:%s" % (mn, qn)] = True
+    import joserfc.jwk as J
+    for name in list(getattr(J, "__all__", [])) + [n for n in vars(J) if "generate" in n]:
+        v = getattr(J, name, None)
+        if isinstance(v, types.FunctionType) and "generate" in name:
+            found["%s:%s" % (v.__module__, v.__qualname__)] = True
+        if isinstance(v, type):
+            for an in dir(v):
+                if "generate" in an:
+                    f = getattr(v, an)
+                    f = getattr(f, "__func__", f)
+                    if isinstance(f, types.FunctionType):
+                        found["%s:%s" % (f.__module__, f.__qualname__)] = True
+    return found
+
+
+def key_vk(key):
+    """value key of a generated key's material as logged by the proxies"""
+    if key.key_type == "oct":
+        return ("b", key.raw_value)
+    if key.key_type == "RSA":
+        raw = key.raw_value
+        pub = raw.public_key() if hasattr(raw, "public_key") else raw
+        return ("rsa", pub.public_numbers().n)
+    return epk_vk(key.as_dict(private=False))
+
+
 REUSE_SCENARIOS = ["same", "fresh-headers", "edit", "decrypt-reencrypt", "decrypt-otherkey",
                    "decrypt-addrecipient", "copy", "deepcopy"]
 
@@ -1288,6 +1361,141 @@ def _run(ctx, ok, log, icp, reg, ALGS, ENCS, unknown_enc):
         gen_case("RSA", 2048, True, 3)
         gen_case("RSA", 3072, True, 1)
 
+    # ---------------- every key generating entry point -------------------
+    from joserfc.jwk import JWKRegistry, KeySet
+    import joserfc.jwk as jwk_mod
+    found = scan_generators()
+    untabled = sorted(set(found) - set(GENERATOR_TABLE))
+    stale = sorted(set(GENERATOR_TABLE) - set(found))
+    for q in untabled:
+        ctx.violation({"kind": "untabled-generator"},
+                      "%s can create key material but is not in the draw-discipline table of the check" % q,
+                      {"function": q, "no_failing_input_found": True, "broken": "harness GENERATOR_TABLE (fail closed)"})
+    for q in stale:
+        ctx.violation({"kind": "generator-table-stale"}, "%s of the draw-discipline table no longer exists" % q,
+                      {"function": q, "no_failing_input_found": True, "broken": "harness GENERATOR_TABLE (fail closed)"})
+    try:
+        from joserfc.rfc7517.models import BaseKey
+        BaseKey.generate_key()
+        ctx.violation({"kind": "untabled-generator"}, "BaseKey.generate_key is no longer abstract", {"function": "BaseKey.generate_key"})
+    except NotImplementedError:
+        pass
+    except Exception as e:  # noqa
+        if not isinstance(e, TypeError):
+            ctx.violation({"kind": "untabled-generator"}, "BaseKey.generate_key raised %r instead of NotImplementedError" % (e,),
+                          {"function": "BaseKey.generate_key"})
+    entry_stats = {"functions_found": len(found), "tabled": len(GENERATOR_TABLE), "untabled": untabled, "stale": stale,
+                   "jwk.generate_key exported": hasattr(jwk_mod, "generate_key"), "registry_cases": 0, "set_cases": 0, "keys_generated": 0}
+
+    def genspec(kty, arg):
+        if kty == "oct":
+            return "(GOct %s)" % c_Z(arg)
+        if kty == "RSA":
+            return "(GRSA %s)" % c_Z(arg)
+        if kty == "EC":
+            return "(GEC %s)" % c_strlit(arg)
+        if kty == "OKP":
+            return "(GOKP %s)" % c_strlit(arg)
+        return "GBadType"
+
+    def entry_case(entry, kty, arg, private, count=None):
+        """entry: "registry" (JWKRegistry.generate_key) | "module" (jwk.generate_key, if exported) |
+        "set" (KeySet.generate_key_set(..., count)) | "set-default" (count omitted)"""
+        w0 = len(rec.log)
+        where = {"keyset": {"entry": entry, "kty": kty, "arg": arg, "private": private, "count": count}}
+        try:
+            if entry == "registry":
+                got = [JWKRegistry.generate_key(kty, arg, None, private, rng.random() < 0.5)]
+            elif entry == "module":
+                got = [jwk_mod.generate_key(kty, arg, None, private)]
+            elif entry == "set-default":
+                ks = KeySet.generate_key_set(kty, arg, private=private)
+                got = list(ks.keys)
+            else:
+                ks = KeySet.generate_key_set(kty, arg, None, private, count)
+                got = list(ks.keys)
+            err = None
+        except BaseException as e:  # noqa
+            if isinstance(e, (KeyboardInterrupt, SystemExit)):
+                raise
+            got, err = [], exn_class(e)
+        shape = [(s_, n_) for (s_, n_, _) in rec.log[w0:]]
+        k_expected = None if entry in ("registry", "module") else (4 if entry == "set-default" else count)
+        obs_l = []
+        if err is None:
+            n_exp = 1 if k_expected is None else max(k_expected, 0)
+            if len(got) != n_exp:
+                ctx.violation({"kind": "key-set-size"}, "%s(%s, %r, count=%r) returned %d keys" % (entry, kty, arg, count, len(got)), where)
+            if len({id(k_) for k_ in got}) != len(got):
+                ctx.violation({"kind": "repeat", "what": "key-set-object"},
+                              "%s(%s, %r, private=%s, count=%r): the same key OBJECT occurs more than once in the generated set" % (
+                                  entry, kty, arg, private, count), where)
+            vks = [key_vk(k_) for k_ in got]
+            if len(set(vks)) != len(vks):
+                ctx.violation({"kind": "repeat", "what": "key-set-material"},
+                              "%s(%s, %r, private=%s, count=%r): keys of one generated set share their material" % (
+                                  entry, kty, arg, private, count), where)
+            if entry.startswith("set"):
+                kids = [k_.kid for k_ in got]
+                if len(set(kids)) != len(kids) or any(not x for x in kids):
+                    ctx.violation({"kind": "repeat", "what": "key-set-kid"},
+                                  "%s(%s, %r, private=%s, count=%r): kids of the generated set are not pairwise distinct: %r" % (
+                                      entry, kty, arg, private, count, kids[:5]), where)
+            for k_, vk in zip(got, vks):
+                entry_stats["keys_generated"] += 1
+                obs_l.append(runner.obs(vk, w0))
+                if k_.key_type != kty:
+                    ctx.violation({"kind": "curve", "what": "key-type"}, "generated %s key for key_type=%s" % (k_.key_type, kty), where)
+                if kty == "oct" and len(k_.raw_value) * 8 != arg:
+                    ctx.violation({"kind": "size", "what": "oct-key"}, "generated oct key has %d octets for key_size=%r" % (len(k_.raw_value), arg), where)
+                if kty == "RSA" and k_.raw_value.key_size != arg:
+                    ctx.violation({"kind": "size", "what": "rsa-key"}, "generated RSA key has %d bits for key_size=%r" % (k_.raw_value.key_size, arg), where)
+                if kty in ("EC", "OKP") and k_.curve_name != arg:
+                    ctx.violation({"kind": "curve", "what": kty}, "generated %s key is on %s, requested %s" % (kty, k_.curve_name, arg), where)
+                if kty != "oct" and bool(k_.is_private) != bool(private):
+                    ctx.violation({"kind": "key-privacy"}, "generated %s key is_private=%s for private=%s" % (kty, k_.is_private, private), where)
+                if not (kty == "oct" and isinstance(arg, int) and arg < 64):
+                    # distinct from every key generated in this run (a second sighting inside the set was reported above)
+                    if vk in seen["key"]:
+                        if vks.count(vk) == 1:
+                            check_unique("key", vk, where)
+                    else:
+                        seen["key"][vk] = where
+        ctx.note_case(("entry", entry, kty, arg, private, count))
+        cases.append("CGenSet %s %s %s %s %s %s %s %s" % (
+            c_N(w0), c_N(native_min), genspec(kty, arg), c_bool(private), c_opt(k_expected, c_N),
+            "None" if err is None else "(Some %s)" % c_exn(err),
+            c_list("(%s, %s)" % (c_site(s_), c_N(n_)) for s_, n_ in shape), c_list(c_obs(o) for o in obs_l)))
+        meta.append({"keyset": where["keyset"], "reps": 1, "impl": {"err": err, "draws": shape, "emitted": obs_l}})
+        entry_stats["registry_cases" if k_expected is None else "set_cases"] += 1
+        now = watch.snap()
+        ch = watch.changed(state[0], now)
+        if ch:
+            ctx.violation({"kind": "state-leak"}, "%s(%s, %r) changed shared state: %s" % (entry, kty, arg, ", ".join(ch[:6])),
+                          dict(where, changed=ch[:20]))
+        state[0] = now
+
+    targets = [("oct", 128), ("oct", 256), ("oct", 64), ("oct", 12), ("oct", -8)] + \
+              [("EC", c) for c in EC_BITS] + [("EC", "P-999")] + [("OKP", c) for c in OKP_PUB_LEN] + [("OKP", "P-256")] + \
+              [("RSA", 1024), ("RSA", 1000), ("RSA", 504), ("XYZ", 128), ("", "P-256")]
+    single_entries = ["registry"] + (["module"] if hasattr(jwk_mod, "generate_key") else [])
+    for kty, arg in targets:
+        for private in (True, False):
+            for e_ in single_entries:
+                entry_case(e_, kty, arg, private)
+            counts = [0, 1, 2, 3, 4, 5, None]
+            if kty == "RSA":
+                counts = [0, 1, 2, None] if ctx.quick else [0, 1, 2, 3, 5, None]
+            for c_ in counts:
+                if c_ is None:
+                    entry_case("set-default", kty, arg, private)
+                else:
+                    entry_case("set", kty, arg, private, c_)
+    entry_case("registry", "RSA", 2048, True)
+    entry_case("set", "RSA", 2048, rng.random() < 0.5, 2)
+    ctx.coverage["generator_entry_points"] = entry_stats
+    dist["entry_point_cases"] = entry_stats["registry_cases"] + entry_stats["set_cases"]
+
     # ---------------- cross-process (thorough) ---------------------------
     if not ctx.quick:
         outs = []
@@ -1327,7 +1535,7 @@ def _run(ctx, ok, log, icp, reg, ALGS, ENCS, unknown_enc):
     direct = len(ctx.violations)
     for i in res["failing"][:20]:
         m = meta[i]
-        what = m.get("config") or {k: m[k] for k in ("keygen", "arg", "private")}
+        what = m.get("config") or m.get("keyset") or {k: m[k] for k in ("keygen", "arg", "private")}
         if "reuse" in m:
             what = {"reuse": m["reuse"], "step": m["step"], "config": m["config"], "state_before_call": m["state_before_call"]}
         ctx.violation({"kind": "correspondence", "fn": "encrypt" if "config" in m else "generate_key"},
@@ -1443,6 +1651,27 @@ def replay(path):
                     now = {"err": exn_class(res[1]), "draws": shape, "iv": ("none",), "recipients": []}
                 if recorded is not None and json.loads(json.dumps(now, default=str)) == json.loads(json.dumps(recorded, default=str)):
                     print("  behaves as recorded (disagrees with the model)"); still = 1
+        elif "keyset" in rp or (isinstance(rp.get("input"), dict) and "entry" in rp["input"]):
+            g = rp["keyset"] if "keyset" in rp else rp["input"]
+            from joserfc.jwk import JWKRegistry, KeySet
+            try:
+                if g["entry"] in ("registry", "module"):
+                    got = [JWKRegistry.generate_key(g["kty"], g["arg"], None, g["private"])]
+                elif g["entry"] == "set-default":
+                    got = list(KeySet.generate_key_set(g["kty"], g["arg"], private=g["private"]).keys)
+                else:
+                    got = list(KeySet.generate_key_set(g["kty"], g["arg"], None, g["private"], g["count"]).keys)
+                vks = [key_vk(k_) for k_ in got]
+                print("draws", [(s_, n_) for (s_, n_, _) in icp.rec.log], "| keys", len(got), "| distinct objects", len({id(k_) for k_ in got}),
+                      "| distinct material", len(set(vks)), "| kids", [k_.kid for k_ in got])
+                if len({id(k_) for k_ in got}) != len(got) or len(set(vks)) != len(vks) or len(icp.rec.log) != len(got):
+                    still = 1
+                if recorded is not None and recorded.get("err") is not None:
+                    still = 0
+            except Exception as e:
+                print("draws", [(s_, n_) for (s_, n_, _) in icp.rec.log], "raised", repr(e))
+                if recorded is not None and recorded.get("err") == exn_class(e):
+                    still = 1
         elif "keygen" in rp or (isinstance(rp.get("input"), dict) and "keygen" in rp["input"]):
             g = rp if "keygen" in rp else rp["input"]
             from joserfc.jwk import OctKey, RSAKey, ECKey, OKPKey
